@@ -1,4 +1,4 @@
-import MV.Lemmas.ActorSysEvents
+import MV.Lemmas.ActorSysStatus2
 /-!
 # From the monadic turns to the pure step function
 -/
